@@ -19,7 +19,9 @@ def run(prog, rep):
     from rules import narrow_counters
     narrow_counters.check(prog, rep, 'R10.16')
     from rules import csvunescape
-    csvunescape.check(prog, rep, 'R10.15')
+    csvunescape.check(prog, rep, 'R10.15', twins=True)
+    from rules import csv_header
+    csv_header.check(prog, rep, 'R10.19')
     from rules import csv_options
     csv_options.check(prog, rep, 'R10.13')
     M.check_reader_twins(prog, rep)
